@@ -64,6 +64,8 @@ def RI(K, s, nv, cls=None):
     rows = K.shape(data)[0]
     if start is None:
         return rows == 0
+    if not K.symbolic and rows < 1:
+        return False                    # a start without rows (natively the cells below do not exist)
     ok = K.And(rows >= 1, row_has_obs(K, data, 0, nv), row_has_obs(K, data, rows - 1, nv))
     if cls is not None:
         ok = K.And(ok, K.cls_of(K.attr(s, "start")) is cls)
@@ -504,25 +506,33 @@ def in_span(K, start, data, t):
 
 @contract("C10", targets=[P + "Series.overlay", P + "Series.overlay_by_span", P + "Series.underlay", P + "Series.underlay_by_span",
                           P + "_broadcast_variants_if_needed", P + "Series._shallow_copy_data"],
-          instances=[(c, n, w) for c in CLS[:1] for n in NV for w in ("overlay", "underlay")] + [(CLS[1], 1, "overlay")], opts={"max_paths": 6000})
-def overlay_underlay(K, cls, nv, which):
+          instances=[(c, n, n, w) for c in CLS[:1] for n in NV for w in ("overlay", "underlay")] + [(CLS[1], 1, 1, "overlay")]
+                    + [(CLS[0], a, b, w) for a, b in ((2, 1), (1, 2)) for w in ("overlay", "underlay")], opts={"max_paths": 6000})
+def overlay_underlay(K, cls, nv, nvy, which):
+    """x.overlay(y) / x.underlay(y), also between a single-variant and a multi-variant series (the single variant stands
+    for every variant): the receiver becomes the laid series; the OTHER series keeps its values, its number of variants
+    and its memory."""
     x, xs, xd = mk_series(K, "x", cls, nv)
-    y, ys, yd = mk_series(K, "y", cls, nv)
+    y, ys, yd = mk_series(K, "y", cls, nvy)
     oldx, oldy = K.snapshot(xd), K.snapshot(yd)
     K.method(x, which, y)
     ns, nd = state(K, x)
-    t, c = generic_cell(K, cls, nv)
+    out_nv = max(nv, nvy)
+    t, c = generic_cell(K, cls, out_nv)
     K.instantiate(t)
-    a, b = V(K, xs, oldx, t, c), V(K, ys, oldy, t, c)
+    a, b = V(K, xs, oldx, t, c if nv > 1 else 0), V(K, ys, oldy, t, c if nvy > 1 else 0)
     if which == "overlay":
         want = K.cell_ite(in_span(K, ys, oldy, t), lambda: b, lambda: a)
         K.ensure("overlay: the other series wins on its whole span, the receiver elsewhere", K.cell_eq(V(K, ns, nd, t, c), want))
     else:
         want = K.cell_ite(in_span(K, xs, oldx, t), lambda: a, lambda: b)
         K.ensure("underlay: the receiver wins on its whole span, the other series elsewhere", K.cell_eq(V(K, ns, nd, t, c), want))
-    K.ensure("RI after lay", RI(K, x, nv, cls))
+    K.ensure("number of variants of the receiver", K.shape(nd)[1] == out_nv)
+    K.ensure("RI after lay", RI(K, x, out_nv, cls))
     nys, nyd = state(K, y)
-    K.ensure("the other series is untouched", K.cell_eq(V(K, nys, nyd, t, c), b))
+    cy = K.int("cy", 0, nvy - 1)
+    K.ensure("the other series keeps its number of variants", K.shape(nyd)[1] == nvy)
+    K.ensure("the other series is untouched", K.cell_eq(V(K, nys, nyd, t, cy), V(K, ys, oldy, t, cy)))
     K.ensure("no memory shared with the other series", not K.same_buffer(nd, nyd))
 
 
@@ -1046,3 +1056,56 @@ def recreation_keeps_exactly_the_requested_periods(K, cls, nv, k, variant):
     c0 = K.int("c0", 0, nv - 1)
     K.ensure("x is untouched", K.cell_eq(V(K, nxs, nxd, t, c0), V(K, xs, old, t, c0)))
     K.ensure("the result has its own memory", (r is not x) and (not K.same_buffer(rd, nxd)))
+
+
+# ------------------------------------------------------------------------------ the empty series
+@contract("C10", targets=["irispie.series._moving:Inlay.moving_window", "irispie.series._moving:mov_sum", "irispie.series._moving:mov_avg",
+                          "irispie.series._moving:mov_prod", "irispie.series._elementwise:exp", P + "Series.empty", P + "Series.trim"],
+          instances=[(n, f) for n in NV for f in ("mov_sum", "mov_avg", "mov_prod", "exp")], opts={"max_paths": 2000})
+def functions_of_the_empty_series_are_empty(K, nv, fname):
+    """A series without observations is a series like any other: a period-by-period function of it is the empty series
+    (no start, no rows, same number of variants), and the input stays as it was."""
+    x, _, xd = mk_series(K, "x", CLS[0], nv, empty=True)
+    fn = getattr(MV, fname) if fname.startswith("mov") else getattr(EW, fname)
+    r = K.call(fn, x, -2) if fname.startswith("mov") else K.call(fn, x)
+    rs, rd = state(K, r)
+    K.ensure("the result is the empty series", rs is None and K.shape(rd) == (0, nv))
+    xs2, xd2 = state(K, x)
+    K.ensure("the input is still the empty series", xs2 is None and K.shape(xd2) == (0, nv) and r is not x)
+
+
+@contract("C10", targets=[P + "Series.empty"], instances=[(c, n) for c in CLS for n in NV])
+def emptying_a_series_leaves_the_empty_series(K, cls, nv):
+    """x.empty() removes every observation: what is left is the empty series - no rows and NO start (a start left
+    behind would make the next write extend the series from a period that holds nothing)."""
+    x, xs, xd = mk_series(K, "x", cls, nv)
+    K.method(x, "empty")
+    K.ensure("RI: the empty series has no start", RI(K, x, nv))
+    ns, nd = state(K, x)
+    K.ensure("no rows, same number of variants", K.shape(nd) == (0, nv))
+    t, c = generic_cell(K, cls, nv)
+    K.ensure("every period is missing", K.cell_is_nan(V(K, ns, nd, t, c)))
+
+
+@contract("C10", targets=[P + "Series.get_values", P + "Series.get_data", "irispie.has_variants:unpack_singleton"],
+          instances=[(1, True), (1, False), (2, True), (2, False)], opts={"max_paths": 3000})
+def get_values_returns_every_variant(K, nv, unpack):
+    """get_values(periods): the values of EVERY variant - one tuple per variant (a bare tuple for a single-variant
+    series unless unpack_singleton=False), each with the value of every requested period, missing outside the rows."""
+    cls = CLS[0]
+    x, xs, xd = mk_series(K, "x", cls, nv)
+    lo, hi = ser(K, cls)
+    ds = [K.int(f"d{i}", lo - 10, hi + 20) for i in range(2)]
+    dates = tuple(K.obj(cls, serial=d) for d in ds)
+    out = K.method(x, "get_values", dates) if unpack else K.method(x, "get_values", dates, unpack_singleton=False)
+    bare = nv == 1 and unpack
+    per_variant = [out] if bare else list(K.items(out))
+    ok = len(per_variant) == nv and (isinstance(out, tuple) if bare else isinstance(out, list)) and all(isinstance(v, tuple) for v in per_variant)
+    K.ensure("one tuple of values per variant", ok)
+    if not ok:
+        return
+    for c, vals in enumerate(per_variant[:nv]):
+        vals = list(K.items(vals))
+        K.ensure(f"variant {c}: one value per requested period", len(vals) == 2)
+        for i, v in enumerate(vals[:2]):
+            K.ensure(f"variant {c}, period {i}", K.cell_eq(v if K.is_cell(v) else K.real_cell(v), V(K, xs, xd, ds[i], c)))
